@@ -5,6 +5,7 @@ import (
 	"fmt"
 	"net"
 	"net/http"
+	"net/url"
 	"strings"
 )
 
@@ -91,16 +92,28 @@ func AllowedDomainRedirectPolicy(hosts ...string) RedirectPolicy {
 	}
 }
 
+// getHostname returns the lower-cased hostname of a URL authority ("host" or
+// "host:port"), exactly as (*url.URL).Hostname reports it: a valid port is
+// removed, and so are the square brackets of an IP literal, whether or not a
+// port follows ("[::1]" and "[::1]:80" are both "::1"; a zone id is kept).
 func getHostname(host string) (hostname string) {
-	if strings.Index(host, ":") > 0 {
-		host, _, _ = net.SplitHostPort(host)
-	}
-	hostname = strings.ToLower(host)
+	hostname = strings.ToLower((&url.URL{Host: host}).Hostname())
 	return
 }
 
+// getDomain returns what the domain policies compare: an IP address has no
+// parent domain and is returned whole; for a DNS name the trailing dot of the
+// fully qualified form is ignored and the first label is dropped if the name
+// has at least three labels.
 func getDomain(host string) string {
 	host = getHostname(host)
+	if strings.Contains(host, ":") { // IPv6 literal
+		return host
+	}
+	host = strings.TrimSuffix(host, ".")
+	if net.ParseIP(host) != nil {
+		return host
+	}
 	ss := strings.Split(host, ".")
 	if len(ss) < 3 {
 		return host
